@@ -16,6 +16,7 @@ Three layers:
 import KinModel.Gen.ReasonSites
 import KinModel.Gen.VisitSites
 import KinModel.Gen.SettingsFlow
+import KinModel.Gen.ErrorRender
 import KinModel.Schema.Events
 import KinModel.C19Message
 namespace KinModel.Schema
@@ -407,6 +408,47 @@ Full statement (does not hold): with a reason-only customizer attached, or with 
 of a reported error comes from the value. The code deviates for an error whose reason is EMPTY: `Error()` ignores an
 empty customizer text and renders the default text, value dump included. -/
 
+/-! #### `errorMessage` against the code: table Gen/ErrorRender (every use of a field of the receiver in
+`(*SchemaError).Error()`, with the conditions of the enclosing `if`s) -/
+
+/-- the rule could read the whole method -/
+theorem error_render_readable : Gen.errorRender.all (fun r => r.field != "<unrecognised>") = true := by decide
+
+/-- the first statement is the customizer block: with a customizer attached its text is returned whenever it is not
+empty, before anything else is looked at (first branch of `errorMessage`) -/
+theorem customizer_text_returned_first :
+    Gen.errorRender.filter (fun r => r.after == "in-customizer") =
+      [⟨"customizeMessageError", [], "in-customizer"⟩,
+       ⟨"customizeMessageError", ["err.customizeMessageError != nil"], "in-customizer"⟩,
+       ⟨"<whole>", ["err.customizeMessageError != nil"], "in-customizer"⟩,
+       ⟨"<return>", ["err.customizeMessageError != nil", "msg := err.customizeMessageError(err); msg != \"\""], "in-customizer"⟩] := by
+  decide
+
+/-- the default text reads the rejected value (and the schema) only inside the `!SchemaErrorDetailsDisabled` block, and
+hands the error as a whole to nobody (last branch of `errorMessage`) -/
+theorem value_printed_only_with_details :
+    (Gen.errorRender.filter (fun r => r.after == "after-customizer")).all
+      (fun r => r.field != "<whole>" &&
+        (!(r.field == "Value" || r.field == "Schema") || r.guards.head? == some "!SchemaErrorDetailsDisabled")) = true := by
+  decide
+
+/-- the fields the default text is made of, in order, are the parts of `errorMessage` (path, [origin text — not modelled],
+reason, field name, schema dump, value dump) -/
+theorem error_render_fields_are_the_modelled_ones :
+    ((Gen.errorRender.filter (fun r => r.after == "after-customizer")).map (fun r => r.field)).eraseDups =
+      ["reversePath", "Origin", "Reason", "SchemaField", "Schema", "Value"] := by decide
+
+/-- `RequestError.Error()` and `ResponseError.Error()` (openapi3filter/errors.go), the texts wrapped around a schema error:
+the rule could read both methods, and both are in the table -/
+theorem filter_error_texts_readable :
+    (Gen.filterErrorRender.all (fun r => r.field != "<unrecognised>") &&
+      ((Gen.filterErrorRender.map (fun r => r.after)).eraseDups == ["RequestError", "ResponseError"])) = true := by decide
+
+/-- they print their own `Reason`, the text of the wrapped error and the declared parameter's name / location — never the
+`Input` (the request or response itself) and never the error as a whole -/
+theorem filter_error_texts_never_read_input :
+    Gen.filterErrorRender.all (fun r => ["Reason", "Err", "Parameter", "RequestBody"].contains r.field) = true := by decide
+
 /-- exclusion: the customizer's text would be empty -/
 def emptyReason (e : Err) : Bool := e.reason.isEmpty
 
@@ -442,6 +484,16 @@ theorem message_from_reasons_value_free_partial (m : Mode) (env : Env) (s : S) (
         have hne : emptyReason e = false := by rcases hex with h | h <;> simp_all
         simp [SiteFlow.attached, SiteFlow.sound, hc, emptyReason] at hna hne
         simp [hne] at hna
+
+/-- the text of the whole report (`MultiError.Error()` joins the members' texts): same statement over the list -/
+theorem multi_message_from_reasons_value_free_partial (m : Mode) (env : Env) (s : S) (v : J) (configured detailsDisabled : Bool)
+    (hcfg : configured = true ∨ detailsDisabled = true)
+    (hex : ∀ e ∈ (validate m env s v).errs, emptyReason e = false ∨ detailsDisabled = true) :
+    ∀ p ∈ multiMessage (SiteFlow.sound.attached configured) detailsDisabled (validate m env s v).errs, p.fromValue = false := by
+  intro p hp
+  simp only [multiMessage, List.mem_flatMap] at hp
+  obtain ⟨e, he, hpe⟩ := hp
+  exact message_from_reasons_value_free_partial m env s v configured detailsDisabled SiteFlow.sound rfl hcfg e he (hex e he) p hpe
 
 /-- witness (inside the exclusion the message differs): an attached reason-only customizer that returns "" falls back to
 the default text with the value dump -/
